@@ -1196,3 +1196,92 @@ def package_switch_views(w, cfg):
         w.ensure(f'after: write through the {name} view, read back the written value', eq_or_fail(w, attempt(lambda: s.get_flow(BASE[name], key)), z))
         w.ensure(f'after: molar data = value / (MW, 1000 V(phase,T,P))', w.eq(observe_raw(s)[ph, 'Water'] * per, z))
     observe(w, s, 'after view writes', units=())
+
+
+# --------------------------------------------------------------------------- group 10 (bounded): the real callers of the temporary package switch
+# Reaction.__call__ / force_reaction / conversion on a stream of ANOTHER property package: as_material_array switches the indexer,
+# (basis='wt') takes `stream.imass.data` there, and switches back.  Native runs with concrete numbers (the reaction arithmetic
+# itself belongs to C05); every sentence is the full observation of the property on the stream afterwards.
+
+def _b_tables():
+    t = {}
+    for n, ID in enumerate(A3):
+        for m, ph in enumerate('slg'):
+            t[f'V.{ID}.{ph}'] = {'entries': [], 'else': (1. + n) * (1e-5 if ph != 'g' else 2e-2) * (1. + 0.1 * m)}
+    return t
+
+
+def reacted_configs(tier):
+    out = []
+    vals = {'s.T': 330., 's.P': 2.5e5}
+    for ph in 'gls':
+        for n, ID in enumerate(A3):
+            vals[f's.{ph}.{ID}'] = 3. + 2. * n + (7. if ph == 'g' else 0.)
+    for kind in (['l', 'gl'] if tier == 'quick' else ['l', 'g', 'gl', 'gls']):
+        for basis in ('wt', 'mol'):
+            for how in ('call', 'force_reaction', 'conversion', 'call twice'):
+                for touch in (True, False):
+                    for flows in ('all-pos', 'diag'):
+                        if tier == 'quick' and flows == 'diag' and (how != 'call' or not touch):
+                            continue
+                        out.append({'name': f'kind={kind};basis={basis};how={how};views-before={touch};flows={flows}', 'kind': kind, 'basis': basis, 'how': how,
+                                    'touch': touch, 'flows': flows, 'values': dict(vals, x=11., y=5., z_mass=70., z_vol=0.9), 'tables': _b_tables()})
+    return out
+
+
+@group('C11/reacted_on_other_package', configs=reacted_configs, mode='B', assumptions=ASSUME,
+       functions=['thermosteam.reaction._reaction:as_material_array', 'thermosteam.reaction._reaction:Reaction.__call__',
+                  'thermosteam.reaction._reaction:Reaction.force_reaction', 'thermosteam.reaction._reaction:Reaction.conversion',
+                  'thermosteam.indexer:ChemicalIndexer.reset_chemicals', 'thermosteam.indexer:MaterialIndexer.reset_chemicals'] + FUNCS_VIEWS[:8],
+       notes='one stream per kind (l, gl; thorough: g, gls) on (Water, Ethanol, Octane) with fixed flows (every chemical, or one chemical per phase), '
+             'T = 330 K, P = 2.5 bar, molar volumes = fixed positive functions of (T, P) per chemical and phase; one reaction R -> Octane (R = first chemical of the last '
+             'phase; X = 0.4, by mass or by mol) defined on the package (Octane, Water, Ethanol); __call__ / force_reaction / conversion / two calls, '
+             'with and without the views built before; followed by a molar write and writes through the mass and volumetric views')
+def reacted_on_other_package(w, cfg):
+    W.reset_caches()
+    thA = package(w, 'A3'); thB = package(w, 'B3')
+    s, _ = mk(w, 's', cfg['kind'], 'A3', cfg['flows'], th=thA)
+    multi = isinstance(s, tmo.MultiStream)
+    if cfg['touch']:
+        observe(w, s, 'before', units=())
+    ph, row = W.rows_of(s)[-1]
+    IDs = s.chemicals.IDs
+    R = next(ID for k, ID in enumerate(IDs) if k in row.dct)            # reactant: a chemical the phase holds
+    Pd = 'Octane' if R != 'Octane' else 'Water'                          # product ('diag': a new entry of the phase)
+    other = next(ID for ID in IDs if ID not in (R, Pd))
+    if multi:
+        rxn = tmo.Reaction({R: (ph, -1.), Pd: (ph, 1.)}, reactant=R, X=0.4, chemicals=thB.chemicals, basis=cfg['basis'], phases=tuple(s.phases))
+    else:
+        rxn = tmo.Reaction({R: -1., Pd: 1.}, reactant=R, X=0.4, chemicals=thB.chemicals, basis=cfg['basis'])
+    w.ensure('precondition of the family: the reaction is defined on another package than the stream', rxn.chemicals is not s.chemicals)
+    old = observe_raw(s)
+    T, P = s.T, s.P
+    how = cfg['how']
+    for _ in range(2 if how == 'call twice' else 1):
+        if how == 'force_reaction': rxn.force_reaction(s)
+        elif how == 'conversion': rxn.conversion(s)
+        else: rxn(s)
+    new = observe_raw(s)
+    w.ensure('the stream is on its own package again; T, P unchanged',
+             w.And(s._imol.chemicals is s.chemicals, set(new) == set(old), w.eq(s.T, T), w.eq(s.P, P)))
+    if how == 'conversion':
+        w.ensure('conversion() leaves the molar data unchanged', w.And(*[w.eq(new[k], old[k]) for k in old]))
+    observe(w, s, 'after', units=('lb/hr', 'L/min'))
+    im = attempt(lambda: s.imass); iv = attempt(lambda: s.ivol)
+    w.ensure('after: the mass and volumetric views are defined over the chemicals of the stream',
+             (not isinstance(im, Raised)) and (not isinstance(iv, Raised)) and im.chemicals is s.chemicals and iv.chemicals is s.chemicals)
+    key = (ph, R) if multi else R
+    key2 = (ph, other) if multi else other
+    y = w.real('y', lo=0, lo_strict=True)
+    s.imol[key2] = y
+    observe(w, s, 'after molar write', units=())
+    MW = s.chemicals.MW
+    for name in ('mass', 'vol'):
+        z = w.real('z_' + name, lo=0, lo_strict=True)
+        u = {'mass': 'lb/hr', 'vol': 'L/min'}[name]; f = pint_factor(u)[1]
+        s.set_flow(z, u, key)
+        per = float(MW[IDs.index(R)]) if name == 'mass' else 1000. * V_expected(w, s, R, ph, s.T, s.P)
+        w.ensure(f'after: write through the {name} view in {u}, read back the written value', eq_or_fail(w, attempt(lambda: s.get_flow(u, key)), z))
+        w.ensure(f'after: molar data = value / unit factor / (MW, 1000 V(phase,T,P))', w.eq(observe_raw(s)[ph, R] * per * f, z))
+    observe(w, s, 'after view writes', units=())
+    w.canary('canary (not evaluated in mode B)', w.eq(s.F_mass, s.F_mol))
